@@ -2,6 +2,7 @@
 from harness.core import Case
 from harness.canon import hx, nats
 from harness.props.bip32_common import IMPL, CLS, ORDER, rand_index, rand_seed, IDX_EDGE
+from bip_utils import Bip32KeyData
 
 LEAN_MODULES = ["BipVerif.Props.C03"]
 CURVES = list(CLS)
@@ -50,14 +51,35 @@ def gen(rng, tier):
         else:
             k = rng.choice([0, nn, nn + 1, 2**256 - 1])                # invalid parents
         cc = bytes(rng.randrange(256) for _ in range(32))
-        yield Case("childpriv", [c, hx(k.to_bytes(32, "big")), hx(cc), rng.randrange(0, 255), rand_index(rng)],
-                   "child" if cls < 4 else "neg-parent")
+        dp = rng.choice([0, 1, 5, 253, 254, 255, rng.randrange(0, 256)])   # child depth 255 is legal, 256 is not
+        yield Case("childpriv", [c, hx(k.to_bytes(32, "big")), hx(cc), dp, rand_index(rng)],
+                   ("child" if dp < 255 else "neg-depth256") if cls < 4 else "neg-parent")
+    # directed: children whose HMAC left half IL, or whose child private key, starts with a zero byte (fixed-width conversions)
+    import hmac, hashlib
+    for i in range(8 if tier == "quick" else 200):
+        c = ("secp256k1", "nist256p1")[i % 2]
+        kb = rng.randrange(1, ORDER[c]).to_bytes(32, "big")
+        cc = bytes(rng.randrange(256) for _ in range(32))
+        par = CLS[c].FromPrivateKey(kb, Bip32KeyData(chain_code=cc))
+        pub = par.PublicKey().RawCompressed().ToBytes()
+        start = rng.getrandbits(31) | (2**31 if i % 4 >= 2 else 0)
+        found = 0
+        for idx in range(start, start + 4000):
+            data = (b"\x00" + kb if idx >= 2**31 else pub) + idx.to_bytes(4, "big")
+            il = hmac.new(cc, data, hashlib.sha512).digest()[:32]
+            child0 = (int.from_bytes(il, "big") + int.from_bytes(kb, "big")) % ORDER[c] < 2**248
+            if il[0] == 0 or child0:
+                yield Case("childpriv", [c, hx(kb), hx(cc), rng.choice([0, 3]), idx], "child-leading-zero")
+                found += 1
+                if found == 3:
+                    break
     for i in range(30 if tier == "quick" else 600):
         c = ("ed25519", "ed25519blake2b")[i % 2]
         k = bytes(rng.randrange(256) for _ in range(32))
         cc = bytes(rng.randrange(256) for _ in range(32))
         idx = rand_index(rng)
-        yield Case("childpriv", [c, hx(k), hx(cc), rng.randrange(0, 255), idx], "child-ed" if idx >= 2**31 else "neg-ed-soft")
+        dp = rng.choice([0, 2, 254, 255, rng.randrange(0, 256)])
+        yield Case("childpriv", [c, hx(k), hx(cc), dp, idx], ("child-ed" if dp < 255 else "neg-depth256") if idx >= 2**31 else "neg-ed-soft")
     if tier == "thorough":
         # a 255-deep chain
         seed = rand_seed(rng)
